@@ -3,46 +3,76 @@
 // dropped, f64 -> R64 per R6) and the *views* the contracts are stated over:
 //   value, gradient per variable NAME (0 for names not carried), half-Hessian per NAME pair.
 // ---------------------------------------------------------------------------------------------
-pub mod dualview_m {
+pub(crate) mod dualview_m {
 use vstd::prelude::*;
 use std::sync::Arc;
 use super::r64_shim::*;
 use super::coll_shim::*;
 use super::nd_shim::*;
 
-pub struct Dual {
-    pub real: R64,
-    pub vars: Arc<IndexSet<String>>,
-    pub dual: Array1<R64>,
+pub(crate) struct Dual {
+    pub(crate) real: R64,
+    pub(crate) vars: Arc<IndexSet<String>>,
+    pub(crate) dual: Array1<R64>,
 }
 
-pub struct Dual2 {
-    pub real: R64,
-    pub vars: Arc<IndexSet<String>>,
-    pub dual: Array1<R64>,
-    pub dual2: Array2<R64>,
+pub(crate) struct Dual2 {
+    pub(crate) real: R64,
+    pub(crate) vars: Arc<IndexSet<String>>,
+    pub(crate) dual: Array1<R64>,
+    pub(crate) dual2: Array2<R64>,
+}
+
+impl Dual {
+    /// C20 "shape invariant" of the type: checked by Verus at every construction site
+    #[verifier::type_invariant]
+    pub(crate) open spec fn inv(self) -> bool { self.dual.sv().len() == self.vars@.len() }
+}
+impl Dual2 {
+    #[verifier::type_invariant]
+    pub(crate) open spec fn inv(self) -> bool {
+        self.dual.sv().len() == self.vars@.len() && self.dual2.nr() == self.vars@.len() && self.dual2.nc() == self.vars@.len()
+    }
 }
 
 /// #[derive(Clone)] expansion (field-wise clone), written out so that it carries a contract
+pub closed spec fn dual_clone_post(a: Dual, r: Dual) -> bool { r.real == a.real && r.vars == a.vars && r.dual.sv() == a.dual.sv() }
+pub closed spec fn dual2_clone_post(a: Dual2, r: Dual2) -> bool {
+    r.real == a.real && r.vars == a.vars && r.dual.sv() == a.dual.sv()
+    && r.dual2.nr() == a.dual2.nr() && r.dual2.nc() == a.dual2.nc()
+    && forall|i: int, j: int| #[trigger] r.dual2.at(i, j) == a.dual2.at(i, j)
+}
+
+pub(crate) proof fn lemma_dual_clone_post(a: Dual, r: Dual)
+    requires dual_clone_post(a, r),
+    ensures r.real == a.real && r.vars == a.vars && r.dual.sv() == a.dual.sv(),
+{ }
+pub(crate) proof fn lemma_dual2_clone_post(a: Dual2, r: Dual2)
+    requires dual2_clone_post(a, r),
+    ensures
+        r.real == a.real && r.vars == a.vars && r.dual.sv() == a.dual.sv()
+        && r.dual2.nr() == a.dual2.nr() && r.dual2.nc() == a.dual2.nc(),
+        forall|i: int, j: int| #[trigger] r.dual2.at(i, j) == a.dual2.at(i, j),
+{ }
+
 impl Clone for Dual {
     fn clone(&self) -> (r: Self)
-        ensures r.real == self.real, r.vars == self.vars, r.dual.sv() == self.dual.sv(),
+        ensures dual_clone_post(*self, r),
     {
+        proof { use_type_invariant(self); }
         Dual { real: self.real, vars: Arc::clone(&self.vars), dual: self.dual.clone() }
     }
 }
 impl Clone for Dual2 {
     fn clone(&self) -> (r: Self)
-        ensures
-            r.real == self.real, r.vars == self.vars, r.dual.sv() == self.dual.sv(),
-            r.dual2.nr() == self.dual2.nr(), r.dual2.nc() == self.dual2.nc(),
-            forall|i: int, j: int| #[trigger] r.dual2.at(i, j) == self.dual2.at(i, j),
+        ensures dual2_clone_post(*self, r),
     {
+        proof { use_type_invariant(self); }
         Dual2 { real: self.real, vars: Arc::clone(&self.vars), dual: self.dual.clone(), dual2: self.dual2.clone() }
     }
 }
 
-pub enum VarsRelationship { ArcEquivalent, ValueEquivalent, Superset, Subset, Difference }
+pub(crate) enum VarsRelationship { ArcEquivalent, ValueEquivalent, Superset, Subset, Difference }
 
 impl Clone for VarsRelationship {
     fn clone(&self) -> (r: Self) ensures r == *self {
@@ -59,27 +89,27 @@ impl Clone for VarsRelationship {
 // ------------------------------------------------------------------ views by NAME
 
 /// gradient entry for name `n`: the stored value at n's position, 0 if n is not carried
-pub open spec fn grad_at(names: Seq<String>, vals: Seq<R64>, n: String) -> real {
+pub(crate) open spec fn grad_at(names: Seq<String>, vals: Seq<R64>, n: String) -> real {
     if names.contains(n) { vals[names.index_of(n)]@ } else { 0real }
 }
 
 /// stored half-Hessian entry for the name pair (n, k), 0 if either is not carried
-pub open spec fn hess_at(names: Seq<String>, m: Array2<R64>, n: String, k: String) -> real {
+pub(crate) open spec fn hess_at(names: Seq<String>, m: Array2<R64>, n: String, k: String) -> real {
     if names.contains(n) && names.contains(k) { m.at(names.index_of(n), names.index_of(k))@ } else { 0real }
 }
 
 /// shape invariants (C20: "a value satisfying its type's shape invariants")
-pub open spec fn dual_wf(d: Dual) -> bool { d.dual.sv().len() == d.vars@.len() }
-pub open spec fn dual2_wf(d: Dual2) -> bool {
+pub(crate) open spec fn dual_wf(d: Dual) -> bool { d.dual.sv().len() == d.vars@.len() }
+pub(crate) open spec fn dual2_wf(d: Dual2) -> bool {
     d.dual.sv().len() == d.vars@.len() && d.dual2.nr() == d.vars@.len() && d.dual2.nc() == d.vars@.len()
 }
 
-pub open spec fn seq_subset(a: Seq<String>, b: Seq<String>) -> bool {
+pub(crate) open spec fn seq_subset(a: Seq<String>, b: Seq<String>) -> bool {
     forall|i: int| 0 <= i < a.len() ==> b.contains(#[trigger] a[i])
 }
 
 /// the five-way classification (for operands that do not share storage)
-pub open spec fn vars_rel(s: Seq<String>, o: Seq<String>) -> VarsRelationship {
+pub(crate) open spec fn vars_rel(s: Seq<String>, o: Seq<String>) -> VarsRelationship {
     if s =~= o { VarsRelationship::ValueEquivalent }
     else if s.len() >= o.len() && seq_subset(o, s) { VarsRelationship::Superset }
     else if s.len() < o.len() && seq_subset(s, o) { VarsRelationship::Subset }
@@ -87,7 +117,7 @@ pub open spec fn vars_rel(s: Seq<String>, o: Seq<String>) -> VarsRelationship {
 }
 
 /// a caller-supplied `state` is consistent with the two name sequences
-pub open spec fn state_ok(state: Option<VarsRelationship>, s: Seq<String>, o: Seq<String>) -> bool {
+pub(crate) open spec fn state_ok(state: Option<VarsRelationship>, s: Seq<String>, o: Seq<String>) -> bool {
     match state {
         None => true,
         Some(VarsRelationship::ArcEquivalent) => s =~= o,
@@ -97,7 +127,7 @@ pub open spec fn state_ok(state: Option<VarsRelationship>, s: Seq<String>, o: Se
 }
 
 /// position of a name in a duplicate-free sequence
-pub proof fn lemma_index_of_unique(names: Seq<String>, i: int)
+pub(crate) proof fn lemma_index_of_unique(names: Seq<String>, i: int)
     requires names.no_duplicates(), 0 <= i < names.len(),
     ensures names.contains(names[i]), names.index_of(names[i]) == i,
 {
@@ -106,7 +136,7 @@ pub proof fn lemma_index_of_unique(names: Seq<String>, i: int)
     assert(names.contains(names[i]));
 }
 
-pub proof fn lemma_grad_at_index(names: Seq<String>, vals: Seq<R64>, i: int)
+pub(crate) proof fn lemma_grad_at_index(names: Seq<String>, vals: Seq<R64>, i: int)
     requires names.no_duplicates(), 0 <= i < names.len(),
     ensures grad_at(names, vals, names[i]) == vals[i]@,
 {
@@ -115,7 +145,7 @@ pub proof fn lemma_grad_at_index(names: Seq<String>, vals: Seq<R64>, i: int)
 }
 
 // ------------------------------------------------------------------ lemmas on seq_union / dedup
-pub proof fn lemma_seq_union_props(a: Seq<String>, b: Seq<String>)
+pub(crate) proof fn lemma_seq_union_props(a: Seq<String>, b: Seq<String>)
     requires a.no_duplicates(),
     ensures
         seq_union(a, b).no_duplicates(),
@@ -155,7 +185,7 @@ pub proof fn lemma_seq_union_props(a: Seq<String>, b: Seq<String>)
     }
 }
 
-pub proof fn lemma_dedup_nodup(s: Seq<String>)
+pub(crate) proof fn lemma_dedup_nodup(s: Seq<String>)
     requires s.no_duplicates(),
     ensures dedup(s) =~= s,
     decreases s.len(),
@@ -172,7 +202,7 @@ pub proof fn lemma_dedup_nodup(s: Seq<String>)
     }
 }
 
-pub proof fn lemma_dedup_props(s: Seq<String>)
+pub(crate) proof fn lemma_dedup_props(s: Seq<String>)
     ensures
         dedup(s).no_duplicates(),
         forall|x: String| #[trigger] dedup(s).contains(x) <==> s.contains(x),
@@ -209,7 +239,7 @@ pub proof fn lemma_dedup_props(s: Seq<String>)
 }
 
 /// grad_at at every carried position
-pub proof fn lemma_grad_at_all(names: Seq<String>, vals: Seq<R64>)
+pub(crate) proof fn lemma_grad_at_all(names: Seq<String>, vals: Seq<R64>)
     requires names.no_duplicates(),
     ensures forall|i: int| 0 <= i < names.len() ==> #[trigger] grad_at(names, vals, names[i]) == vals[i]@,
 {
@@ -220,7 +250,7 @@ pub proof fn lemma_grad_at_all(names: Seq<String>, vals: Seq<R64>)
 }
 
 /// re-laying gradients onto a new name list by name lookup (values[i] = old gradient of target[i])
-pub proof fn lemma_new_vars_grad(names: Seq<String>, vals: Seq<R64>, target: Seq<String>, out: Seq<R64>)
+pub(crate) proof fn lemma_new_vars_grad(names: Seq<String>, vals: Seq<R64>, target: Seq<String>, out: Seq<R64>)
     requires
         names.no_duplicates(), target.no_duplicates(), out.len() == target.len(),
         forall|i: int| 0 <= i < target.len() ==> (#[trigger] out[i])@ == grad_at(names, vals, target[i]),
@@ -236,19 +266,19 @@ pub proof fn lemma_new_vars_grad(names: Seq<String>, vals: Seq<R64>, target: Seq
 }
 
 /// the Hessian entry selected by two looked-up positions (None = name not carried)
-pub open spec fn hess_lookup(m: Array2<R64>, idx: Seq<Option<usize>>, a: int, b: int) -> real {
+pub(crate) open spec fn hess_lookup(m: Array2<R64>, idx: Seq<Option<usize>>, a: int, b: int) -> real {
     if idx[a].is_some() && idx[b].is_some() { m.at(idx[a].unwrap() as int, idx[b].unwrap() as int)@ } else { 0real }
 }
 
 /// `idx[a]` is the position of target[a] in names (None iff absent)
-pub open spec fn idx_ok(names: Seq<String>, target: Seq<String>, idx: Seq<Option<usize>>) -> bool {
+pub(crate) open spec fn idx_ok(names: Seq<String>, target: Seq<String>, idx: Seq<Option<usize>>) -> bool {
     idx.len() == target.len()
     && forall|a: int| 0 <= a < target.len() ==> (
         ((#[trigger] idx[a]).is_some() ==> (idx[a].unwrap() as int) < names.len() && names[idx[a].unwrap() as int] == target[a])
         && (idx[a].is_none() ==> !names.contains(target[a])))
 }
 
-pub proof fn lemma_new_vars_hess(names: Seq<String>, m: Array2<R64>, target: Seq<String>, idx: Seq<Option<usize>>, out: Array2<R64>)
+pub(crate) proof fn lemma_new_vars_hess(names: Seq<String>, m: Array2<R64>, target: Seq<String>, idx: Seq<Option<usize>>, out: Array2<R64>)
     requires
         names.no_duplicates(), target.no_duplicates(), idx_ok(names, target, idx),
         forall|a: int, b: int| 0 <= a < target.len() && 0 <= b < target.len() ==> (#[trigger] out.at(a, b))@ == hess_lookup(m, idx, a, b),
@@ -269,7 +299,7 @@ pub proof fn lemma_new_vars_hess(names: Seq<String>, m: Array2<R64>, target: Seq
 }
 
 /// unfolding of grad_at / hess_at together with the range facts of `index_of` (broadcast in the operator units)
-pub broadcast proof fn lemma_grad_at_unfold(names: Seq<String>, vals: Seq<R64>, n: String)
+pub(crate) broadcast proof fn lemma_grad_at_unfold(names: Seq<String>, vals: Seq<R64>, n: String)
     ensures
         #[trigger] grad_at(names, vals, n) == (if names.contains(n) { vals[names.index_of(n)]@ } else { 0real }),
         names.contains(n) ==> 0 <= names.index_of(n) < names.len() && names[names.index_of(n)] == n,
@@ -279,7 +309,7 @@ pub broadcast proof fn lemma_grad_at_unfold(names: Seq<String>, vals: Seq<R64>, 
     }
 }
 
-pub broadcast proof fn lemma_hess_at_unfold(names: Seq<String>, m: Array2<R64>, n: String, k: String)
+pub(crate) broadcast proof fn lemma_hess_at_unfold(names: Seq<String>, m: Array2<R64>, n: String, k: String)
     ensures
         #[trigger] hess_at(names, m, n, k) == (if names.contains(n) && names.contains(k) { m.at(names.index_of(n), names.index_of(k))@ } else { 0real }),
         names.contains(n) ==> 0 <= names.index_of(n) < names.len() && names[names.index_of(n)] == n,
@@ -289,11 +319,11 @@ pub broadcast proof fn lemma_hess_at_unfold(names: Seq<String>, m: Array2<R64>, 
     if names.contains(k) { let j = choose|j: int| 0 <= j < names.len() && names[j] == k; }
 }
 
-pub broadcast group group_view_unfold {
+pub(crate) broadcast group group_view_unfold {
     lemma_grad_at_unfold,
     lemma_hess_at_unfold,
 }
 
 } // mod dualview_m
-pub use dualview_m::*;
+pub(crate) use dualview_m::*;
 use std::sync::Arc;
